@@ -29,6 +29,7 @@ THEOREMS = [
     "c20_runner_launch_exact",
     "c20_runner_one_launch_per_name",
     "c20_runner_mixed_names",
+    "c20_host_process_irrelevant",
     "c20_errors_classified",
     "c20_errors_surface",
     "c20_extra_members_ignored",
@@ -79,8 +80,11 @@ ARGS = [
     "cancel scope", "json object must be str", "()", "() { :; }", "LOG_LEVEL=ERROR",
 ]
 ENV_KEYS = ["FOO", "BAR_1", "PATH", "LOG_LEVEL", "HOME", "X", "lower_case", "MCP_TOKEN",
+            # names that look like credentials (what log-scrubbing code looks for)
+            "SERVICE_API_KEY", "GITHUB_TOKEN", "DB_PASSWORD", "CLIENT_SECRET", "AWS_SECRET_ACCESS_KEY", "passwd",
+            "CREDENTIALS_FILE", "PRIVATE_KEY", "AUTH",
             "LOGGING_LEVEL", "LOGNAME", "SHELL", "TERM", "USER", "APPDATA", "0", "env", "command", "%s"]
-ENV_VALS = ["", "1", "a b", "q\"'q", "=", "/usr/bin:/bin", "ERROR", "debug", "ü", "$HOME", "x" * 200,
+ENV_VALS = ["sk-live-123", "***", "ghp_abcDEF", "", "1", "a b", "q\"'q", "=", "/usr/bin:/bin", "ERROR", "debug", "ü", "$HOME", "x" * 200,
             "0", "false", "null", "CRITICAL", "critical", "Error", "WARNING", "()", "() { :; }; x", "%s %d", "{0}",
             "\r\n", "\u2028", "a\nb"]
 TIMEOUTS = [None, 1, 30, 120, 0.5, 2.25, 7.0, "5", "2.5", "10.0", "0.125",
@@ -149,6 +153,25 @@ WITNESS_MODES = [None, None, {"caps": ["tools", "resources", "prompts"], "lists"
 HOST_ENVS = [{"LOGNAME": "() { :; }; x", "TERM": ""}, {"SHELL": None, "USER": "u s e r"}, {"HOME": "()", "TERM": "xterm"}]
 
 
+def stdout_may_fail(c):
+    """A stdout that cannot take what is printed (not UTF-8, or closed) is an I/O problem of the host's own; it must
+    not keep a library entry point from launching what is configured.  It is only generated where the entry point has
+    nothing it MUST say before the launch: not for the command line itself (`main` announces what it tests), not when
+    an error has to be reported (a name that cannot be loaded, a failing command function), not for a second run
+    after the first one's report failed."""
+    if c["expect"] != "valid" or c["entry"] == "cliMain" or c.get("repeat", 1) > 1:
+        return False
+    if c["entry"] == "runner":
+        known = c["doc"].get("mcpServers", {})
+        if c.get("mixed") or c.get("cmdfunc") == "raises" or any(n not in known for n in c["names"]):
+            return False
+        if c.get("bare") and len(expected_launches(c, {"PATH": ""})) != len(c["names"]):
+            return False
+    if c.get("bare"):
+        return False
+    return True
+
+
 def decorate(rng, case):
     """ways of USING the entry points that do not change what has to be launched"""
     c = dict(case)
@@ -179,8 +202,13 @@ def decorate(rng, case):
         c["legacy"] = rng.choice(["names", "modules", "transport", "asyncgen"])
     if e == "runner" and rng.random() < 0.3:
         c["legacy"] = "names"
+    # the host process: logging at DEBUG with a handler that formats; a stdout that is not UTF-8, or closed
+    if rng.random() < 0.45:
+        c["logging"] = "debug"
     if rng.random() < 0.12 and c["expect"] == "valid":
         c["repeat"] = 2
+    if rng.random() < 0.4 and stdout_may_fail(c):
+        c["stdout"] = rng.choice(["ascii", "cp1252", "closed"])
     if rng.random() < 0.15:
         c["host_env"] = rng.choice(HOST_ENVS)
     return c
@@ -495,6 +523,19 @@ class Entry(Suite):
             out.append({"entry": "cliMain", "file": "ok", "doc": d0, "names": ["sqlite"], "expect": "valid", "main_mode": mode,
                         "cfgname": "server_config.json" if mode == "discover" else "config.json", "verbose": mode == "short",
                         "witness_mode": WITNESS_MODES[2 + (mode == "short")]})
+        d6 = {"mcpServers": {"svc": {"command": "@W0", "args": ["héllo", "日本語", "--ключ"],
+                                     "env": {"SERVICE_API_KEY": "sk-live-123", "GITHUB_TOKEN": "ghp_abcDEF", "DB_PASSWORD": "p w",
+                                             "FOO": "1"}}}}
+        for e in ENTRIES:
+            for lg_, so in (("debug", "utf-8"), (None, "ascii"), ("debug", "cp1252"), (None, "closed")):
+                c = {"entry": e, "file": "ok", "doc": d6, "names": ["svc"], "expect": "valid", "stdout": so}
+                if not stdout_may_fail(c):
+                    c["stdout"] = "utf-8"
+                if lg_:
+                    c["logging"] = lg_
+                if e in ("cliTest", "cliMain"):
+                    c["verbose"] = lg_ == "debug"
+                out.append(c)
         for lg in ("names", "modules", "transport", "asyncgen"):
             out.append({"entry": "loader", "file": "ok", "doc": d1, "names": ["b"], "expect": "valid", "legacy": lg})
         out.append({"entry": "runner", "file": "ok", "doc": d3, "names": ["p", "q"], "expect": "valid", "legacy": "names"})
@@ -523,7 +564,7 @@ class Entry(Suite):
                 out += [decorate(rng, c) for c in malformed_cases(rng, doc)]
         cov = {}
         for c in out:
-            for k in ("style", "cfgname", "main_mode", "cmdfunc", "verbose", "repeat", "legacy"):
+            for k in ("style", "cfgname", "main_mode", "cmdfunc", "verbose", "repeat", "legacy", "logging", "stdout"):
                 if k in c:
                     cov[f"{k}={c[k]}"] = cov.get(f"{k}={c[k]}", 0) + 1
             if "witness_mode" in c:
@@ -635,8 +676,12 @@ class Entry(Suite):
                                 f"(launched: {sorted(l['cmd'] for l in got)})", {"launches": want})
                     if g["argv"] != w["argv"]:
                         return (f"wrong-argv/{e}", f"{e}: child saw argv {g['argv']!r}, configured {w['argv']!r}", {"launches": want})
+                    diff = {k: (g["env"].get(k), w["env"].get(k)) for k in sorted(set(g["env"]) | set(w["env"]))
+                            if g["env"].get(k) != w["env"].get(k)}
                     return (f"wrong-env/{e}", f"{e}: child environment differs from the configured one "
-                            f"(keys seen {sorted(g['env'])}, wanted {sorted(w['env'])})", {"launches": want})
+                            f"(keys seen {sorted(g['env'])}, wanted {sorted(w['env'])}; (seen, wanted) of "
+                            f"{ {k: (str(a)[:40] if a is not None else None, str(b)[:40] if b is not None else None) for k, (a, b) in list(diff.items())[:3]} })",
+                            {"launches": want})
                 return (f"extra-launch/{e}", f"{e}: launches {[l['cmd'] for l in rest_g]} not asked for", {"launches": want})
             if e == "runner" and isinstance(o.get("ret"), dict) and o["ret"].get("n") is not None \
                     and case.get("cmdfunc", "plain") != "never" and case.get("repeat", 1) == 1:
@@ -686,7 +731,7 @@ class Entry(Suite):
         return case["expect"] == "valid"
 
     def shrink_candidates(self, case):
-        for k in ("legacy", "host_env", "repeat", "witness_mode", "verbose", "user_specified", "cmdfunc", "style", "cfgname", "cfgdir"):
+        for k in ("logging", "stdout", "legacy", "host_env", "repeat", "witness_mode", "verbose", "user_specified", "cmdfunc", "style", "cfgname", "cfgdir"):
             if k in case and not (k == "cfgname" and case.get("main_mode") == "discover"):
                 yield {a: b for a, b in case.items() if a != k}
         if case.get("main_mode") not in (None, "explicit"):
